@@ -74,7 +74,7 @@ PROPS["C17"] = {
 
 PROPS["C01"] = {
     # quick tier leaves the slowest families to their own property's check and to C01's thorough tier
-    "quick_exclude": r"^vk_c16_|^vk_c20_|^vk_c06_(format_n249|parse_body_n249|parse_body_n250|crc_increment_block16|calc_crc_is_fold|read_frame)|^vk_c10_pair_|^vk_c08_writer_l2|^vk_c03_buf_(select|write|insert|clear)_|^vk_c11_(select_range|write_series|writer_step)|^vk_c13_history",
+    "quick_exclude": r"^vk_c16_|^vk_c20_|^vk_c06_(format_n249|parse_body_n249|parse_body_n250|crc_increment_block16|calc_crc_is_fold|read_frame)|^vk_c10_pair_|^vk_c08_writer_l2|^vk_c03_buf_(select|write|insert|clear)_|^vk_c11_(select_range|write_series|writer_step)|^vk_c13_history|^vk_c12_handle_controls",
     "level_text": "Panic-freedom (explicit panics, unwrap/expect, index and slice bounds, arithmetic overflow, division) and loop termination of the synchronous functions that sit between the socket and the session, each proved for its full input domain under the type invariant by the verifier's built-in checks: link parser/reader arithmetic/layer decision, transport assembler, every object codec and iterator, event buffer operations, session-level synchronous handlers, master-side pure functions. One run = every harness of every other property that is full-domain.",
     "level_note": "NOT covered: every async fn (run loops, read_frame, write paths), so 'keeps serving a following request' and 'ends the session cleanly' are not decided; code reachable only through log arguments (shimmed); the tx-buffer unwrap in handle_operate; the app-layer dispatcher loop as a whole (each arm is covered). Discard-loop progress is bounded in buffer length (inductive argument in DESIGN).",
     "not_covered": ["all async fns of outstation::session, master::task, link::reader::read_frame, transport writer", "Display/Debug code behind log macros", "outstation::session::handle_operate: unwrap on respond_with_status (async)"],
